@@ -102,46 +102,76 @@ def prove(run: lib.Run):
 # inputs
 # ----------------------------------------------------------------------------------
 
-def gen_inputs(rng: random.Random, n_ann: int, n_non: int, maxd: int, chain_n: int):
-    """[(string, is_annotation)], distinct, corpus first; plus the feature histogram"""
+def _flag(s: str) -> bool:
+    try:
+        return L.in_annotation_grammar(ast.parse(s, mode="eval"))
+    except SyntaxError:
+        return False
+
+
+def gen_inputs(rng: random.Random, n_ann: int, n_non: int, maxd: int, chain_n: int, thorough: bool = False,
+               n_variants: int = 150):
+    """[(string, is_annotation)], distinct, corpus first; plus the feature histogram.
+    Order: corpus, fixed lists, every parenthesisation of short chains, the round-3 systematic strata (unions of
+    constants at every position, every pair of member kinds, the position x kind grid of the model grammar --
+    flagged by L.in_annotation_grammar), n_ann / n_non strings of the seeded random grammar, and near-duplicate
+    variants of a sample (the cache-key histories)."""
     g = L.Gen(rng)
     out, seen = [], set()
+    strata = {}
 
-    def add(s, a):
+    def add(s, a, stratum=None):
         if s not in seen:
             seen.add(s)
             try:
                 ast.parse(s, mode="eval")     # transform requires valid syntax; composed non-annotation
             except SyntaxError:               # templates are occasionally not (e.g. `*a | b`)
-                return
+                return False
             out.append((s, a))
+            if stratum:
+                strata[stratum] = strata.get(stratum, 0) + 1
+            return True
+        return False
 
     cdir = os.path.join(lib.VERIF, "corpus", "C20")
     if os.path.isdir(cdir):
         for fn in sorted(os.listdir(cdir)):
             if fn.endswith(".json"):
                 for it in json.load(open(os.path.join(cdir, fn))).get("inputs", []):
-                    add(it["input"], bool(it.get("annotation", True)))
+                    add(it["input"], bool(it.get("annotation", True)), "corpus")
     for s in L.FIXED:
-        add(s, True)
+        add(s, True, "fixed")
     for s in L.NONANN_FIXED:
-        add(s, False)
+        add(s, False, "fixed-nonann")
     for s in L.corpus_shapes(chain_n):
-        add(s, True)
+        add(s, True, "chain-shapes")
+    for name, fn in (("const-unions", L.const_union_inputs), ("member-kinds", L.member_kind_inputs),
+                     ("grammar-grid", L.grid_inputs)):
+        for s in fn(rng, thorough):
+            add(s, _flag(s), name)
     depth_hist = {}
-    tries = 0
-    while sum(1 for _, a in out if a) < n_ann and tries < n_ann * 4:
+    tries = got = 0
+    while got < n_ann and tries < n_ann * 4:
         tries += 1
         d = 1 + (tries % maxd)
-        before = len(out)
-        add(g.ann(d), True)
-        if len(out) > before:
+        if add(g.ann(d), True, "random-grammar"):
+            got += 1
             depth_hist[d] = depth_hist.get(d, 0) + 1
-    tries = 0
-    while sum(1 for _, a in out if not a) < n_non and tries < n_non * 4:
+    tries = got = 0
+    while got < n_non and tries < n_non * 4:
         tries += 1
-        add(g.nonann(tries % 4), False)
-    return out, {"features": g.feat, "generator_depth": depth_hist}
+        got += bool(add(g.nonann(tries % 4), False, "random-nonann"))
+    # near-duplicates: the same annotation in another layout, and DIFFERENT annotations that differ only by
+    # blanks / case inside a string constant (each call of the stream has all earlier calls as its history)
+    withc = [(s, a) for s, a in out if ("'" in s or '"' in s)]
+    base = rng.sample(withc, min(len(withc), n_variants)) + rng.sample(out, min(len(out), n_variants // 3))
+    for s, a in base:
+        vs = L.variants(s)
+        rng.shuffle(vs)
+        for v, what in vs[:3]:
+            add(v, a, "variant:" + what)
+    return out, {"features": g.feat, "generator_depth": depth_hist, "strata": strata,
+                 "model_grammar_coverage": L.grammar_coverage(out)}
 
 
 def ast_depth(tree) -> int:
@@ -167,7 +197,18 @@ def correspond(run: lib.Run):
     n_ann = run.budget(3500, 40000)
     n_non = run.budget(900, 8000)
     maxd = run.budget(4, 5)
-    inputs, dist = gen_inputs(run.rng, n_ann, n_non, maxd, run.budget(4, 5))
+    inputs, dist = gen_inputs(run.rng, n_ann, n_non, maxd, run.budget(4, 5), thorough=run.tier == "thorough",
+                              n_variants=run.budget(150, 1500))
+    O.reset_state()
+    O.LOG.clear()
+    # histories of the memo, part 1: a slice of the strings is first transformed under ANOTHER union name; the
+    # default call of the main stream below must not be answered from that entry
+    alt_first = {}
+    for s, is_ann in inputs[-run.budget(150, 600):]:
+        try:
+            alt_first[s] = O.call(s, ALT_UNIONS[1])
+        except Exception as e:   # noqa: BLE001
+            alt_first[s] = "raised %r" % e
     cases, coq, bad = [], [], []
     changed = 0
     ndepth = {}
@@ -183,7 +224,7 @@ def correspond(run: lib.Run):
         dd = ast_depth(tree)
         ndepth[dd] = ndepth.get(dd, 0) + 1
         try:
-            t = future.transform(s)
+            t = O.call(s)
             desc["output"] = t
             ttree = ast.parse(t, mode="eval")
         except Exception as e:   # noqa: BLE001   the model never raises on a parsed tree
@@ -209,15 +250,18 @@ def correspond(run: lib.Run):
                        "].\nEval vm_compute in mismatches (future_case_strict generics union_name) cases.\n"
                        "Eval vm_compute in mismatches (future_case_ok generics union_name) cases.\n")
         index[name] = part
-    # the union= argument (and the cache keyed on it): the same strings under other union names
+    # the union= argument (and the cache keyed on it): the same strings under other union names -- the corpus /
+    # fixed head of the stream and an evenly spaced sample through all strata
+    n_alt = run.budget(300, 1500)
+    alt_sample = inputs[:n_alt // 3] + inputs[n_alt // 3::max(1, (len(inputs) - n_alt // 3) // (n_alt - n_alt // 3))][:n_alt - n_alt // 3]
     alt_cases = []
     for k, alt in enumerate(ALT_UNIONS):
         part = []
-        for s, is_ann in inputs[:run.budget(300, 1500)]:
+        for s, is_ann in alt_sample:
             desc = {"input": s, "annotation": is_ann, "union": alt}
             try:
                 tree = ast.parse(s, mode="eval")
-                t = future.transform(s, union=alt)
+                t = O.call(s, alt)
                 desc["output"] = t
                 ttree = ast.parse(t, mode="eval")
             except Exception as e:   # noqa: BLE001
@@ -234,7 +278,35 @@ def correspond(run: lib.Run):
             index[name] = [i for i, _ in part[j:j + shard]]
     bad += [len(cases) + i for i, d in enumerate(alt_cases) if "error" in d]
     cases += alt_cases
+    # histories of the memo, part 2: transform is a function of (annotation, union): asking again, after all the
+    # other calls (other strings, near-duplicates, other union names), gives the string given the first time
+    first = {c["input"]: c.get("output") for c in cases if "union" not in c and "output" in c}
+    rep_cases = []
+    for s, is_ann in alt_sample + inputs[-run.budget(150, 600):]:
+        if s not in first:
+            continue
+        try:
+            t = O.call(s)
+        except Exception as e:   # noqa: BLE001
+            t = "raised %r" % e
+        desc = {"input": s, "annotation": is_ann, "output": t, "first_output": first[s], "stream": "asked-again"}
+        if t != first[s]:
+            desc["error"] = "transform(s) changed between two calls of one process"
+        rep_cases.append(desc)
+    for s, t in alt_first.items():
+        desc = {"input": s, "annotation": True, "union": ALT_UNIONS[1], "output": t, "stream": "other-union-first"}
+        try:
+            t2 = O.call(s, ALT_UNIONS[1])
+        except Exception as e:   # noqa: BLE001
+            t2 = "raised %r" % e
+        if t2 != t:
+            desc["error"] = "transform(s, union=%r) changed between two calls of one process (now %r)" % (ALT_UNIONS[1], t2)
+        rep_cases.append(desc)
+    bad += [len(cases) + i for i, d in enumerate(rep_cases) if "error" in d]
+    cases += rep_cases
+    run.log("correspondence: %d cases on the implementation, %d files for Coq" % (len(cases), len(files)))
     res = run.coq_eval_many(files, timeout=900)
+    run.log("correspondence: model evaluated")
     strict = []
     for name, r in res.items():
         if r is None or len(r) < 2:
@@ -249,7 +321,8 @@ def correspond(run: lib.Run):
         run.notes.append("C20: the exact tree predicted by the model differs from the implementation on %d inputs with "
                          "arithmetic operators (only totality and identity are demanded and compared there); the "
                          "_refuted_ witnesses may no longer describe the code; first: %r" % (len(drift), cases[drift[0]]))
-    dist.update({"other_union_names": {a: sum(1 for c in alt_cases if c["union"] == a) for a in ALT_UNIONS}})
+    dist.update({"other_union_names": {a: sum(1 for c in alt_cases if c["union"] == a) for a in ALT_UNIONS},
+                 "asked_again": len(rep_cases)})
     dist.update({"ast_depth": dict(sorted(ndepth.items())), "annotation": sum(1 for _, a in inputs if a),
                  "non_annotation": sum(1 for _, a in inputs if not a), "output_differs_from_input": changed,
                  "exact_tree_disagreements_outside_guard": len(drift),
@@ -275,15 +348,18 @@ def _own_findings():
     return []
 
 
-def shrink(s: str, annotation: bool, clause: str) -> str:
+def shrink(s: str, annotation: bool, clause: str, history=()) -> str:
     """structural shrinking on the source text: replace sub-expressions by `int` / hoist children while the
-    same clause still fails"""
+    same clause still fails (after the same history, from a fresh state)"""
     typed = annotation and O.evaluates_to_type(s)
+    grammatical = annotation and _flag(s)
 
     def fails(x):
         if typed and not O.evaluates_to_type(x):      # stay inside the statement's domain while shrinking
             return False
-        return any(f["clause"] == clause for f in O.check_string(x, annotation))
+        if grammatical and not _flag(x):
+            return False
+        return any(f["clause"] == clause for f in O.check_history(history, x, annotation))
 
     cur = s
     for _ in range(200):
@@ -318,20 +394,134 @@ def shrink(s: str, annotation: bool, clause: str) -> str:
     return cur
 
 
+# ---- histories ------------------------------------------------------------------------------------------
+
+def _confusable_key(s: str) -> str:
+    return "".join(ch.lower() for ch in s if ch.isalnum())
+
+
+def minimise_history(hist, test, deadline):
+    """ddmin on a list of calls: a sublist after which `test` still holds (1-minimal unless the time is up)"""
+    import time
+    n = 2
+    while len(hist) >= 2 and time.time() < deadline:
+        size = -(-len(hist) // n)
+        chunks = [hist[i:i + size] for i in range(0, len(hist), size)]
+        for i, c in enumerate(chunks):
+            if test(c):
+                hist, n = c, 2
+                break
+            rest = [h for j, cc in enumerate(chunks) if j != i for h in cc]
+            if len(chunks) > 2 and test(rest):
+                hist, n = rest, max(n - 1, 2)
+                break
+        else:
+            if n >= len(hist):
+                break
+            n = min(len(hist), 2 * n)
+    return hist
+
+
+def settle_history(f):
+    """f failed somewhere in the long call sequence of this process.  Find what it depends on: nothing (it fails
+    from a fresh state), or a minimal list of earlier calls.  Returns the failure re-observed from a fresh state
+    after that history, or None when it cannot be re-observed (then it is not reported as a failing input)."""
+    import time
+    s, a, clause = f["input"], f["annotation"], f["clause"]
+
+    def test(h):
+        return any(x["clause"] == clause for x in O.check_history(h, s, a))
+
+    def again(h):
+        g = [x for x in O.check_history(h, s, a) if x["clause"] == clause][0]
+        g["history_dependent"] = bool(h)
+        return g
+
+    given = [tuple(h) for h in f.get("history", [])]
+    if test([]):
+        return again([])
+    if given and test(given):
+        return again(minimise_history(given, test, time.time() + 20))
+    prefix = list(O.LOG[:f.get("_at", len(O.LOG))])
+    keys = {_confusable_key(s), _confusable_key(str(f.get("output", s)))}     # (the fixpoint clause transforms the output)
+    near = [h for h in dict.fromkeys(prefix) if (_confusable_key(h[0]) in keys and h[0] != s) or
+            (h[0] == s and h[1] is not None)]
+    if near and test(near):
+        return again(minimise_history(near, test, time.time() + 20))
+    prefix = list(dict.fromkeys(prefix))
+    if prefix and test(prefix):
+        return again(minimise_history(prefix, test, time.time() + 30))
+    return None
+
+
+def history_search(rng, inputs, n_base):
+    """the directed history stream: for a sample of inputs X and each near-duplicate Y of X (L.variants), the
+    statement for Y after transform(X) and for X after transform(Y), each from a fresh state; and the statement for
+    X (default call) after transform(X, union=<other name>)"""
+    withc = [(s, a) for s, a in inputs if ("'" in s or '"' in s)]
+    base = rng.sample(withc, min(len(withc), n_base)) + rng.sample(list(inputs), min(len(inputs), n_base // 3))
+    fails, n, kinds = [], 0, {}
+    for x, a in base:
+        vs = L.variants(x)
+        rng.shuffle(vs)
+        for y, what in vs[:3]:
+            for h, t in ((x, y), (y, x)):
+                n += 1
+                kinds[what] = kinds.get(what, 0) + 1
+                for f in O.check_history([(h, None)], t, a):
+                    f["history_kind"] = what
+                    fails.append(f)
+        for u in ALT_UNIONS[1:]:
+            n += 1
+            kinds["other-union-name"] = kinds.get("other-union-name", 0) + 1
+            for f in O.check_history([(x, u)], x, a):
+                f["history_kind"] = "other-union-name"
+                fails.append(f)
+        if len(fails) > 100:
+            break
+    return fails, n, kinds
+
+
+def fails_in_fresh_process(payload) -> bool:
+    """the replay, executed the way `./check C20 --replay` does: in a new interpreter"""
+    import subprocess
+    import sys
+    code = ("import json,sys; sys.path.insert(0, %r); import props.c20 as P; "
+            "print('FAILS=%%s' %% bool(P.replay(json.load(sys.stdin))['fails']))" % os.path.join(lib.VERIF, "harness"))
+    try:
+        p = subprocess.run([sys.executable, "-c", code], input=json.dumps(payload, default=str), capture_output=True,
+                           text=True, timeout=120, cwd=lib.VERIF)
+    except Exception:   # noqa: BLE001
+        return False
+    return "FAILS=True" in p.stdout
+
+
 def search(run: lib.Run, broken):
     rng = random.Random(run.seed + 1)
-    fails, nev, nnt, neval = [], 0, 0, 0
+    fails, nev, nnt, neval, nref = [], 0, 0, 0, 0
     by_clause = {}
-    # (1) the correspondence's mismatching cases first, (2) every correspondence input (corpus first),
-    # (3) a fresh stream: bigger when something broke or in the thorough tier
-    todo = [(c["input"], c["annotation"]) for c in getattr(run, "_c20_mismatching", [])]
+    # (0) corpus entries that are histories, (1) the correspondence's mismatching cases first, (2) every
+    # correspondence input (corpus first), (3) a fresh stream: bigger when something broke or in the thorough tier,
+    # (4) the directed history stream
+    cdir = os.path.join(lib.VERIF, "corpus", "C20")
+    nhist = 0
+    if os.path.isdir(cdir):
+        for fn in sorted(os.listdir(cdir)):
+            if fn.endswith(".json"):
+                for it in json.load(open(os.path.join(cdir, fn))).get("inputs", []):
+                    if it.get("history"):
+                        nhist += 1
+                        fails += O.check_history([tuple(h) for h in it["history"]], it["input"], bool(it.get("annotation", True)))
+    todo = [(c["input"], c["annotation"]) for c in getattr(run, "_c20_mismatching", []) if "union" not in c]
     todo += list(getattr(run, "_c20_inputs", []))
+    thorough = run.tier == "thorough"
     if not getattr(run, "_c20_inputs", None):
         todo += gen_inputs(rng, 1500, 400, 4, 4)[0]
     extra = run.budget(1500, 24000)
     if broken:
         extra = max(extra, run.budget(6000, 24000))
-    todo += gen_inputs(rng, extra, extra // 4, run.budget(4, 5), 3)[0]
+    fresh_inputs, fresh_dist = gen_inputs(rng, extra, extra // 4, run.budget(4, 5), 3, thorough=thorough)
+    todo += fresh_inputs
     seen = set()
     for s, a in todo:
         if (s, a) in seen:
@@ -341,33 +531,67 @@ def search(run: lib.Run, broken):
         if a:
             if O.evaluates(s):
                 neval += 1
+            elif O.evaluates_ref(s):
+                nref += 1
+        at = len(O.LOG)
         fs = O.check_string(s, a)
         try:
             nnt += O.has_constructs(ast.parse(s, mode="eval"))
         except SyntaxError:
             pass
         for f in fs:
+            f["_at"] = at
             by_clause[f["clause"]] = by_clause.get(f["clause"], 0) + 1
         fails += fs
         if len(fails) > 300:
             break
-    # keep, per clause, the smallest failing inputs; shrink them
+    run.log("oracle: %d strings checked, %d failures" % (nev, len(fails)))
+    hf, nh, hkinds = history_search(rng, sorted(seen), run.budget(120, 1500) * (2 if broken else 1))
+    for f in hf:
+        by_clause[f["clause"]] = by_clause.get(f["clause"], 0) + 1
+    fails += hf
+    nhist += nh
+    run.log("oracle: %d history checks, %d failures" % (nh, len(hf)))
+    # keep, per clause, the smallest failing inputs (history-free ones first); settle what each depends on, shrink
     best = {}
-    for f in sorted(fails, key=lambda f: len(f["input"])):
+
+    def rank(f):
+        # the most ordinary annotations first: evaluates as written, or under the reference reading without an
+        # Ellipsis among the union members; then by size
+        s = f["input"]
+        r = 0 if O.evaluates(s) else 1 if (O.evaluates_ref(s) and "..." not in s) else 2
+        return (r, len(s) + sum(len(h[0]) for h in f.get("history", [])))
+
+    for f in sorted(fails, key=rank):
         best.setdefault(f["clause"], [])
-        if len(best[f["clause"]]) < 2:
+        if len(best[f["clause"]]) < 3 and f["input"] not in [g["input"] for g in best[f["clause"]]]:
             best[f["clause"]].append(f)
-    out = []
+    out, unsettled = [], 0
     for clause, fl in best.items():
+        kept = 0
         for f in fl:
-            small = shrink(f["input"], f["annotation"], clause)
-            if small != f["input"]:
-                g = [x for x in O.check_string(small, f["annotation"]) if x["clause"] == clause]
-                if g:
-                    g[0]["shrunk_from"] = f["input"]
-                    f = g[0]
-            f["key"] = failure_key(f)
-            out.append(f)
+            g = settle_history(f)
+            if g is None:
+                unsettled += 1
+                continue
+            if kept >= 2:
+                break
+            kept += 1
+            hist = [tuple(h) for h in g.get("history", [])]
+            if not hist:
+                small = shrink(g["input"], g["annotation"], clause)
+                if small != g["input"]:
+                    gg = [x for x in O.check_history([], small, g["annotation"]) if x["clause"] == clause]
+                    if gg:
+                        gg[0]["shrunk_from"] = g["input"]
+                        gg[0]["history_dependent"] = False
+                        g = gg[0]
+            if "history_kind" in f:
+                g["history_kind"] = f["history_kind"]
+            g["fails_in_fresh_process"] = fails_in_fresh_process(g)
+            g["key"] = failure_key(g)
+            out.append(g)
+    out.sort(key=lambda g: (not g["fails_in_fresh_process"], bool(g.get("history"))))
     # listed findings of this property that the lead has not merged into known_findings.json yet
     merged = {e["id"] for e in run.findings()}
     rest = []
@@ -378,14 +602,20 @@ def search(run: lib.Run, broken):
         else:
             rest.append(f)
     run.search_stats["oracle"] = {
-        "evaluations": nev, "distinct_nontrivial": nnt, "annotation_inputs_that_evaluate": neval,
+        "evaluations": nev + nhist, "distinct_nontrivial": nnt, "annotation_inputs_that_evaluate": neval,
+        "annotation_inputs_read_by_reference_reading": nref,
+        "history_checks": nhist, "history_kinds": hkinds, "failures_not_reobserved_from_a_fresh_state": unsettled,
+        "fresh_stream_strata": fresh_dist.get("strata"), "fresh_stream_grammar_coverage": fresh_dist.get("model_grammar_coverage"),
         "failures": len(fails), "failures_by_clause": by_clause,
-        "rule": "every correspondence input + a fresh generator stream; clauses: total (no exception, output parses), "
+        "rule": "every correspondence input + a fresh generator stream (same strata, other seed) + the directed "
+                "history stream (near-duplicate strings / other union name transformed first, from a fresh module "
+                "state); clauses: total (no exception, output parses), "
                 "identity (ast.dump equal when the input has no `|` and no documented builtin generic name), and for "
                 "annotation-grammar inputs: no BitOr / documented builtin Name left outside string and Literal "
                 "constants, transform(transform(s)) == transform(s), eval of both sides in a namespace of dummy "
                 "generic classes and typing objects gives the same structure (origins, args; unions as sets; a str "
-                "argument is the ForwardRef of it); non-trivial = input contains a construct",
+                "argument is the ForwardRef of it; an input whose `|` the interpreter rejects is read with "
+                "a | b = typing.Union[a, b]); non-trivial = input contains a construct",
     }
     if rest:
         run.samples.append({"oracle_failure": rest[0]})
@@ -418,7 +648,8 @@ def replay(payload):
     if "input" not in payload:
         return {"fails": False, "note": "no concrete input in this replay (broken obligation / correspondence): "
                                         "re-run ./check C20", "payload_kind": payload.get("kind")}
-    fs = O.check_string(payload["input"], bool(payload.get("annotation", True)))
+    hist = [tuple(h) for h in payload.get("history") or []]
+    fs = O.check_history(hist, payload["input"], bool(payload.get("annotation", True)))
     if payload.get("clause"):
         fs = [f for f in fs if f["clause"] == payload["clause"]]
     return {"fails": bool(fs), "failures": fs}
